@@ -3,14 +3,14 @@
  "name": "file_read",
  "props": ["C09"],
  "level": "U",
- "tier": "wip",
+ "tier": "quick",
  "harness": "h_file_read",
  "enforce": ["ext2fs_file_read"],
  "replace": ["sync_buffer_position", "load_buffer"],
  "loop_contracts": true,
  "functions": ["lib/ext2fs/fileio.c:ext2fs_file_read"],
  "assumes": ["blocksize 1024 (the loop divides by fs->blocksize); not an inline-data file (units inline_read*)",
-             "sync_buffer_position and load_buffer replaced by ASSUMED contracts (the buffer protocol of the handle, not proved here): after sync the handle's block number is pos / blocksize; after load_buffer(0) the buffer holds the current content of that block — stated pointwise for one ghost file offset G with content g_byte; both may fail",
+             "sync_buffer_position and load_buffer replaced by the contracts of file_proto.h (proved by units buffer_sync / buffer_load): the buffer is coherent on entry (VALID for block G / bs => it holds the file's byte g_byte at G % bs; DIRTY => VALID), sync moves to block pos / bs, load_buffer leaves a valid buffer alone and otherwise fills it with the block's current content — pointwise for one ghost file offset G; both may fail",
              "libc memcpy modelled in the unit: source readable / destination writable for n bytes ASSERTED at every call (this is 'every memcpy stays inside file->buf and inside the caller's buffer'), faithful copy at the one tracked output byte",
              "caller's buffer has exactly `wanted` bytes, wanted <= 4096 (cap on the symbolic object size)",
              "the loop is closed by the in-place loop contract VERIF_INV_FILE_READ (hooks-pending/fio.diff)"],
@@ -31,7 +31,7 @@ struct in_rw {
 	unsigned long long pos, isize, blockno, physblock, G;
 	unsigned int wanted;
 	int flags;
-	unsigned char byte, null_got, badmagic;
+	unsigned char byte, bufbyte, null_got, badmagic;
 	long choice[6];
 };
 struct in_rw IN;
@@ -55,6 +55,7 @@ unsigned long long g_wanted0;
 #define ISIZE(file) EXT2_I_SIZE(&(file)->inode)
 #define LE(x) __CPROVER_loop_entry(x)
 struct blk1k { unsigned char b[1024]; };
+#define EARLY_COHERENT(file) (!(((file)->flags & EXT2_FILE_BUF_VALID) && (file)->blockno == g_G / BS) || (unsigned char)(file)->buf[g_G % BS] == g_byte)
 /* in-place loop contract of ext2fs_file_read's block loop */
 #define VERIF_INV_FILE_READ \
 	__CPROVER_assigns(retval, start, c, left, ptr, count, wanted, file->pos, file->blockno, file->flags, file->physblock, \
@@ -63,6 +64,7 @@ struct blk1k { unsigned char b[1024]; };
 	__CPROVER_loop_invariant(file->pos == LE(file->pos) + count && ptr == (char *)buf + count) \
 	__CPROVER_loop_invariant(count == 0 || file->pos <= ISIZE(file)) \
 	__CPROVER_loop_invariant(g_mc_bad == 0) \
+	__CPROVER_loop_invariant(EARLY_COHERENT(file) && (!(file->flags & EXT2_FILE_BUF_DIRTY) || (file->flags & EXT2_FILE_BUF_VALID))) \
 	/* every file byte delivered so far is in its place */ \
 	__CPROVER_loop_invariant(!(g_G >= LE(file->pos) && g_G < file->pos) || g_out[TOFF] == g_byte) \
 	__CPROVER_decreases(wanted)
@@ -84,23 +86,13 @@ void *memcpy(void *dst, const void *src, size_t n)
 
 #include "lib/ext2fs/fileio.c"
 
-#define CH(i) (IN.choice[(i) % 6])
-static errcode_t sync_buffer_position(ext2_file_t file)
-	ASSIGNS(file->blockno, file->flags, file->physblock, g_ci, g_sync_calls)
-	ENSURES(g_ci == OLD(g_ci) + 1 && g_sync_calls == OLD(g_sync_calls) + 1 && RET == (CH(OLD(g_ci)) ? EXT2_ET_SHORT_WRITE : 0))
-	ENSURES(RET != 0 || file->blockno == file->pos / BS);
-
-static errcode_t load_buffer(ext2_file_t file, int dontfill)
-	REQUIRES(file->fs->blocksize == BS)
-	ASSIGNS(file->flags, file->physblock, g_ci, g_load_calls, *(struct blk1k *)file->buf)
-	ENSURES(g_ci == OLD(g_ci) + 1 && g_load_calls == OLD(g_load_calls) + 1 && RET == (CH(OLD(g_ci)) ? EXT2_ET_SHORT_READ : 0))
-	/* the buffer holds the current content of block file->blockno */
-	ENSURES(RET != 0 || dontfill || g_G / BS != file->blockno || (unsigned char)file->buf[g_G % BS] == g_byte);
+#include "file_proto.h"
 
 errcode_t ext2fs_file_read(ext2_file_t file, void *buf, unsigned int wanted, unsigned int *got)
 	REQUIRES(file->fs->blocksize == BS && !(file->inode.i_flags & EXT4_INLINE_DATA_FL))
 	REQUIRES(g_pos0 == file->pos && g_wanted0 == wanted && g_out == (unsigned char *)buf && g_mc_bad == 0)
 	REQUIRES(ISIZE(file) <= (1ULL << 48) && file->pos <= (1ULL << 48))
+	REQUIRES(COHERENT(file) && DIRTY_IMPLIES_VALID(file))
 	ASSIGNS(file->pos, file->blockno, file->flags, file->physblock, g_ci, g_sync_calls, g_load_calls, g_mc_calls, g_mc_bad;
 		*(struct blk1k *)file->buf; __CPROVER_object_whole(buf); got != 0: *got)
 #define NEXP(file) (g_pos0 < ISIZE(file) ? (ISIZE(file) - g_pos0 < g_wanted0 ? ISIZE(file) - g_pos0 : g_wanted0) : 0ULL)
@@ -111,7 +103,7 @@ errcode_t ext2fs_file_read(ext2_file_t file, void *buf, unsigned int wanted, uns
 	ENSURES(RET == 0 || file->magic != EXT2_ET_MAGIC_EXT2_FILE || (file->pos - g_pos0 <= NEXP(file) && (got == 0 || *got == file->pos - g_pos0)))
 	/* every delivered byte is the file's byte at that offset */
 	ENSURES(file->magic != EXT2_ET_MAGIC_EXT2_FILE || !(g_G >= g_pos0 && g_G < file->pos) || g_out[TOFF] == g_byte)
-	ENSURES(g_mc_bad == 0);
+	ENSURES(g_mc_bad == 0 && (file->magic != EXT2_ET_MAGIC_EXT2_FILE || (COHERENT(file) && DIRTY_IMPLIES_VALID(file))));
 
 static struct struct_ext2_filsys FS;
 static struct ext2_super_block SB;
@@ -131,6 +123,8 @@ void h_file_read(void)
 	g_G = IN.G; g_byte = IN.byte; g_pos0 = IN.pos; g_wanted0 = IN.wanted;
 	g_out = out;
 	g_ci = g_sync_calls = g_load_calls = g_mc_calls = g_mc_bad = 0;
+	F.buf[g_G % BS] = IN.bufbyte;
+	ASSUME(COHERENT(&F) && DIRTY_IMPLIES_VALID(&F));
 	unsigned int got = 7777;
 
 	errcode_t r = ext2fs_file_read((ext2_file_t)&F, out, IN.wanted, IN.null_got ? 0 : &got);
